@@ -497,13 +497,22 @@ fn dedup(ids: &[u8]) -> Vec<u8> {
 }
 
 const UNIVERSE: u8 = 7;
+/// collections whose elements are made from a key or outpoint number have a wider universe: some
+/// implementations change their ways beyond a handful of elements
+fn universe_of(kind: CollKind) -> u8 {
+    match kind {
+        CollKind::TxInputs | CollKind::KeyHashes | CollKind::Vkeywitnesses | CollKind::BootstrapWitnesses => 14,
+        _ => UNIVERSE,
+    }
+}
 
 pub fn run_coll(c: &CollCase) -> Outcome {
     let plan = RngPlan { sampler: Sampler::Uniform, seed: 0, forced: None };
     let sim = Sim::install(&plan, c.hash_seed);
     let mut out = Outcome::default();
     let kind = c.kind;
-    let universe: Vec<(u8, Vec<u8>)> = (0..UNIVERSE).map(|i| (i, elem_bytes(kind, i))).collect();
+    let uni = universe_of(kind);
+    let universe: Vec<(u8, Vec<u8>)> = (0..uni).map(|i| (i, elem_bytes(kind, i))).collect();
     let is_ws = matches!(kind, CollKind::WsNativeScripts | CollKind::WsPlutusScripts | CollKind::WsPlutusData);
     let mut obj = new_obj(kind);
     let mut model: Vec<u8> = vec![];
@@ -515,15 +524,15 @@ pub fn run_coll(c: &CollCase) -> Outcome {
         let mut applied = true;
         match op {
             CollOp::Add(id) => {
-                obj.add(*id % UNIVERSE);
-                if !model.contains(&(*id % UNIVERSE)) {
-                    model.push(*id % UNIVERSE);
+                obj.add(*id % uni);
+                if !model.contains(&(*id % uni)) {
+                    model.push(*id % uni);
                 } else {
                     out.count("fault.F6_duplicate_add", 1);
                 }
             }
             CollOp::AddAlt(id, alt) => {
-                let id = *id % UNIVERSE;
+                let id = *id % uni;
                 let eb = alt_bytes(&universe[id as usize].1, *alt, 0);
                 if is_ws {
                     if obj.add_decoded(id) {
@@ -550,7 +559,7 @@ pub fn run_coll(c: &CollCase) -> Outcome {
             }
             CollOp::Decode { ids, tagged, indefinite, wide, .. } if matches!(kind, CollKind::WsNativeScripts | CollKind::WsPlutusData) => {
                 // a list decoded from a peer's bytes (with repeats) is handed unmodified to the typed setter
-                let ids: Vec<u8> = ids.iter().map(|x| x % UNIVERSE).collect();
+                let ids: Vec<u8> = ids.iter().map(|x| x % uni).collect();
                 let mut b = vec![];
                 if *tagged {
                     cbor::w_tag(&mut b, 258);
@@ -602,7 +611,7 @@ pub fn run_coll(c: &CollCase) -> Outcome {
                 if is_ws {
                     applied = false;
                 } else {
-                    let ids: Vec<u8> = ids.iter().map(|x| x % UNIVERSE).collect();
+                    let ids: Vec<u8> = ids.iter().map(|x| x % uni).collect();
                     let mut b = vec![];
                     if *tagged {
                         cbor::w_tag(&mut b, 258);
@@ -668,7 +677,7 @@ pub fn run_coll(c: &CollCase) -> Outcome {
                 if is_ws {
                     applied = false;
                 } else {
-                    let ids: Vec<u8> = ids.iter().map(|x| x % UNIVERSE).collect();
+                    let ids: Vec<u8> = ids.iter().map(|x| x % uni).collect();
                     let mut arr = vec![];
                     let mut ok = true;
                     for id in &ids {
@@ -1049,17 +1058,19 @@ impl Prop for C16 {
             0..=49 => Case::Session(wallet::generate(seed, tier, &profile_c16())),
             50..=84 => {
                 let kind = *r.pick(&KINDS);
-                let n = 1 + r.below(if tier == Tier::Thorough { 24 } else { 12 });
+                let uni = universe_of(kind) as u64;
+                let long = uni > UNIVERSE as u64 && r.chance(1, 2);
+                let n = 1 + r.below(if tier == Tier::Thorough { 24 } else { 12 }) + if long { 12 } else { 0 };
                 let mut ops = vec![];
                 for _ in 0..n {
                     let ids = |r: &mut Rng| -> Vec<u8> {
-                        let m = r.below(6);
-                        (0..m).map(|_| r.below(UNIVERSE as u64) as u8).collect()
+                        let m = r.below(if long { 14 } else { 6 });
+                        (0..m).map(|_| r.below(uni) as u8).collect()
                     };
                     ops.push(match r.below(13) {
                         12 => CollOp::ViaBuilder,
-                        0..=4 => CollOp::Add(r.below(UNIVERSE as u64) as u8),
-                        5 => CollOp::AddAlt(r.below(UNIVERSE as u64) as u8, 1 + r.below(200) as u8),
+                        0..=4 => CollOp::Add(r.below(uni) as u8),
+                        5 => CollOp::AddAlt(r.below(uni) as u8, 1 + r.below(200) as u8),
                         6 | 7 => CollOp::Decode { ids: ids(&mut r), tagged: r.chance(1, 2), indefinite: r.chance(1, 3), wide: r.chance(1, 4), alt: if r.chance(1, 2) { 1 + r.below(200) as u8 } else { 0 } },
                         8 => CollOp::FromJson(ids(&mut r)),
                         9 => CollOp::CloneIt,
